@@ -15,7 +15,8 @@ use std::time::Duration;
 pub struct Session {
     to_server: Sender<Message>,
     from_server: Receiver<Message>,
-    handle: Option<std::thread::JoinHandle<bool>>,
+    /// the message loop's result arrives here when `run` returns
+    done: Receiver<bool>,
     next_id: i32,
 }
 
@@ -24,8 +25,11 @@ impl Session {
         let (to_server, server_rx): (Sender<Message>, Receiver<Message>) = unbounded();
         let (server_tx, from_server): (Sender<Message>, Receiver<Message>) = unbounded();
         let router = Router::new(server_tx, ServerConfig { base_path: "/lib".to_string(), state, sequential_ids: Some(true), configuration: Configuration::default(), lsp_client: LspClient::Unknown });
-        let handle = std::thread::spawn(move || router.run(server_rx).is_ok());
-        Session { to_server, from_server, handle: Some(handle), next_id: 1 }
+        let (done_tx, done) = unbounded();
+        std::thread::spawn(move || {
+            let _ = done_tx.send(router.run(server_rx).is_ok());
+        });
+        Session { to_server, from_server, done, next_id: 1 }
     }
     /// send a request, wait for the response with that id: (responses with this id, saw other ids)
     pub fn request(&mut self, method: &str, params: Value, wait: Duration) -> Vec<Value> {
@@ -53,7 +57,9 @@ impl Session {
     }
     pub fn finish(mut self) -> bool {
         self.notify("exit", json!(null));
-        self.handle.take().map(|h| h.join().unwrap_or(false)).unwrap_or(false)
+        // a loop that is blocked behind a handler that never returns does not end: that is a verdict, not a reason to
+        // wait for ever (the thread is left behind)
+        self.done.recv_timeout(DEADLINE).unwrap_or(false)
     }
 }
 
